@@ -547,7 +547,7 @@ func (c *child) checkStream(hc *hcase) {
 	cls := tagClass(hc.tag)
 	c.count("stream:" + cls)
 	if p != nil {
-		c.violation("panic:stream:"+cls+":"+panicClass(p), fmt.Sprintf("ReadMessage panicked on a hostile stream: %v", p), map[string]interface{}{"panic": fmt.Sprint(p)})
+		c.violation("panic:"+streamName(stream, cls)+":"+panicClass(p), fmt.Sprintf("ReadMessage panicked on a hostile stream: %v", p), map[string]interface{}{"panic": fmt.Sprint(p)})
 		return
 	}
 	confirm := func(bound uint64) (uint64, bool) {
@@ -617,6 +617,26 @@ func (c *child) checkStream(hc *hcase) {
 	}
 }
 
+// streamName attributes a stream to a message type when its header is intact (own magic,
+// declared length present, checksum matches): then the body reached that type's decoder.
+func streamName(stream []byte, cls string) string {
+	if len(stream) >= pc.MSG_HDR_LEN && binary.LittleEndian.Uint32(stream) == config.DefConfig.P2PNode.NetworkMagic {
+		n := int(binary.LittleEndian.Uint32(stream[16:]))
+		if n <= len(stream)-pc.MSG_HDR_LEN {
+			var sum [4]byte
+			copy(sum[:], stream[20:24])
+			if pc.Checksum(stream[pc.MSG_HDR_LEN:pc.MSG_HDR_LEN+n]) == sum {
+				cmd := string(bytes.TrimRight(stream[4:16], "\x00"))
+				if specOf(cmd) != nil {
+					return cmd
+				}
+				return "unknown"
+			}
+		}
+	}
+	return "stream:" + cls
+}
+
 // checkSequence reads k frames back to back from one reader.
 func (c *child) checkSequence(tag string, frames [][]byte, cmds []string) {
 	var all []byte
@@ -644,6 +664,13 @@ func (c *child) checkSequence(tag string, frames [][]byte, cmds []string) {
 			return
 		}
 		if err != nil || int(n) != len(f)-pc.MSG_HDR_LEN || before-rd.Len() != len(f) {
+			// convict the framing only when the frame is readable on its own (a valid frame
+			// that is rejected alone is the round-trip clause's finding, reported there)
+			var e2 error
+			if p2 := vf.Catch(func() { _, _, e2 = mt.ReadMessage(bytes.NewReader(f)) }); p2 != nil || e2 != nil {
+				c.count("sequence_skipped_frame_unreadable_alone")
+				return
+			}
 			c.violation("sequence:framing", fmt.Sprintf("frame %d of %d (%s): err=%v len=%d consumed=%d want %d", k, len(frames), cmds[k], err, n, before-rd.Len(), len(f)), nil)
 			return
 		}
